@@ -1,6 +1,6 @@
 """C05 -- reverse complement: cases, implementation driver, model terms, property oracle."""
 import itertools
-from framework import coq_bs, coq_N
+from framework import coq_bs, coq_N, coq_nat, coq_bool, coq_list, coq_pair
 
 ID = 'C05'
 COQ_IMPORTS = ['C05_Model']
@@ -10,7 +10,11 @@ RULE = ('all 18 single symbols, every string up to length 2 (quick) / 4 (thoroug
         'strings up to 3000 residues; ops complement, rc, reverse.complement, rc.rc, gc counts, seq- and basket-level; a history stream '
         '(object edited in place - alphabet switched, residues assigned, +=, copy, rc - before the operation; baskets holding a sequence '
         'next to its own reverse complement or a duplicate, without ids); '
-        'non-trivial = distinct (op, string) containing an ambiguity code, a gap or U')
+        'object histories (run_C05_hist): 1-4 sequences built through the constructor (lower case, type None/nt/aa) or by data assignment '
+        '(any byte 0..255), 1-9 operations out of complement/reverse/rc/rc(update_fts)/copy (three kinds)/basket complement/reverse/rc/'
+        '.str.translate/.str.replace/.str.lower/data=/+=/alias (same object listed twice)/append, every state (all objects + basket handles) compared; '
+        'all 256 byte values in one string; exhaustive strings over ATUGR up to length 3 complemented twice; '
+        'non-trivial = distinct (op, string) containing an ambiguity code, a gap or U, or a distinct history')
 TRUSTED = ['CPython str.translate/str.replace/slicing (modelled as per-character maps, compared on every case)',
            'modelled: BioSeq.complement/reverse/rc/gc, BioBasket.rc/complement (seq.py:336-355,486-494,584-589,766-772,876-902)']
 ASSUMPTIONS = ['Python str restricted to Latin-1 code points']
@@ -80,6 +84,7 @@ def gen_cases(rng, tier):
                     others.append(''.join(rng.choice(ALPHA) for _ in range(rng.randrange(0, 6))))
         cases.append({'op': rng.choice(['complement', 'rc', 'rev_complement', 'rc_rc', 'reverse']), 's': s, 'basket': bool(others),
                       'pre': pre, 'others': others, 'ufts': rng.random() < 0.3})
+    cases += gen_hist(rng, tier)
     return cases
 
 
@@ -147,6 +152,8 @@ def cur(case):
 
 
 def impl(case):
+    if case.get('kind') == 'hist':
+        return impl_hist(case)
     from sugar import BioSeq, BioBasket
     s, op = case['s'], case['op']
     del _SOURCES[:]
@@ -192,13 +199,270 @@ def impl(case):
     return str(seq)
 
 
+# ----------------------------------------------------------------------------- object histories (run_C05_hist)
+# opcodes of C05_Model.step; positions address the basket, the heap lists every sequence object in creation order
+OPNAMES = {0: 'complement', 1: 'reverse', 2: 'rc', 3: 'rc_ufts', 4: 'copy', 5: 'b.complement', 6: 'b.reverse', 7: 'b.rc',
+           8: 'str.translate', 9: 'str.replaceTU', 10: 'str.replaceUT', 11: 'b.str.translate', 12: 'str.lower', 13: 'data=',
+           14: 'alias', 15: 'iadd', 16: 'append_new', 17: 'b.rc_ufts'}
+
+
+def classify(s):
+    if any(c not in ALPHA + 'U' for c in s):
+        return 'other-bytes'
+    if 'U' in s and 'T' in s:
+        return 'mixedTU'
+    return 'rna' if 'U' in s else 'dna'
+
+
+def split_model(case, m):
+    if case.get('kind') == 'hist':
+        return bool(m[0]), m[1]
+    return True, m
+
+
+def valid_case(case):
+    if case.get('kind') != 'hist':
+        return True
+    ini, ops = case.get('init'), case.get('ops')
+    if not ini or not all(isinstance(m, list) and len(m) == 3 for m in ini):
+        return False
+    return all(isinstance(o, list) and len(o) == 3 and o[0] in OPNAMES and 0 <= o[1] < len(ini) for o in ops)
+
+
+def impl_hist(case):
+    import copy as _copy, warnings
+    from sugar import BioSeq, BioBasket
+    from sugar.core.seq import COMPLEMENT_TRANS
+    heap = []
+
+    def new(mode, s, typ=None):
+        with warnings.catch_warnings():
+            warnings.simplefilter('ignore')
+            if mode:
+                q = BioSeq(s, type=typ)
+                if len(s) % 3 == 1:      # built from another sequence object: upper-cased again (idempotent), metadata taken over
+                    q = BioSeq(q, type=typ)
+            else:
+                q = BioSeq('', type=typ)
+                q.data = s
+        heap.append(q)
+        return q
+
+    def snap():
+        hs = [x.data for x in heap]
+        assert all(type(x) is str for x in hs)
+        return [hs, [[i for i, x in enumerate(heap) if x is y][0] for y in b]]
+    b = BioBasket([new(*m) for m in case['init']])
+    states = []
+    for opc, p, arg in case['ops']:
+        q = b[p]
+        r, recv = q, q
+        if opc == 0:
+            r = q.complement()
+        elif opc == 1:
+            r = q.reverse()
+        elif opc == 2:
+            r = q.rc()
+        elif opc == 3:
+            r = q.rc(update_fts=True)
+        elif opc == 4:
+            c = {'': q.copy, 's': lambda: _copy.copy(q), 'd': lambda: _copy.deepcopy(q)}[arg]()
+            assert c is not q
+            heap.append(c)
+            b.data[p] = c
+        elif opc in (5, 6, 7, 11, 17):
+            recv = b
+            r = (b.complement() if opc == 5 else b.reverse() if opc == 6 else b.rc() if opc == 7 else
+                 b.rc(update_fts=True) if opc == 17 else b.str.translate(COMPLEMENT_TRANS))
+        elif opc == 8:
+            r = q.str.translate(COMPLEMENT_TRANS)
+        elif opc == 9:
+            r = q.str.replace('T', 'U')
+        elif opc == 10:
+            r = q.str.replace('U', 'T')
+        elif opc == 12:
+            r = q.str.lower()
+        elif opc == 13:
+            q.data = arg
+        elif opc == 14:
+            b.append(q)
+        elif opc == 15:
+            if len(arg) % 2:             # the operand is a sequence object with other metadata (warned about, residues appended as they are)
+                tmp = BioSeq('', id='other')
+                tmp.data = arg
+                with warnings.catch_warnings():
+                    warnings.simplefilter('ignore')
+                    q += tmp
+            else:
+                q += arg
+            assert q is recv and b[p] is recv
+        elif opc == 16:
+            b.append(new(True, arg))
+        assert r is recv, 'in-place operation must return the receiver'
+        assert len(b) >= len(case['init']) and (opc == 4 or b[p] is q)
+        states.append(snap())
+    return states
+
+
+def spec_c_any(s):
+    """IUPAC complement from first principles; symbols outside the alphabet stay (the property is silent, the code keeps them)"""
+    rna = 'U' in s
+    t = s.replace('U', 'T')
+    r = ''.join(INV[frozenset(WC[x] for x in IUPAC[c])] if c in IUPAC else c for c in t)
+    return r.replace('T', 'U') if rna else r
+
+
+def spec_upper(s):
+    return ''.join('SS' if c == '\xdf' else chr(ord(c) - 32) if ('a' <= c <= 'z' or ('\xe0' <= c <= '\xfe' and c != '\xf7')) else c for c in s)
+
+
+def spec_lower(s):
+    return ''.join(chr(ord(c) + 32) if ('A' <= c <= 'Z' or ('\xc0' <= c <= '\xde' and c != '\xd7')) else c for c in s)
+
+
+def spec_hist(case, got):
+    if isinstance(got, dict):
+        return 'raised %s' % got['e']
+    heap = [spec_upper(m[1]) if m[0] else m[1] for m in case['init']]
+    bask = list(range(len(heap)))
+    tab = {'A': 'T', 'C': 'G', 'G': 'C', 'T': 'A', 'R': 'Y', 'Y': 'R', 'S': 'S', 'W': 'W', 'K': 'M', 'M': 'K', 'B': 'V', 'V': 'B',
+           'D': 'H', 'H': 'D', 'N': 'N', '.': '.', '-': '-'}
+    c = spec_c_any
+    fs = {0: c, 1: lambda x: x[::-1], 2: lambda x: c(x[::-1]), 3: lambda x: c(x[::-1]),
+          8: lambda x: ''.join(tab.get(ch, ch) for ch in x), 9: lambda x: x.replace('T', 'U'), 10: lambda x: x.replace('U', 'T'),
+          12: spec_lower}
+    bf = {5: 0, 6: 1, 7: 2, 17: 2, 11: 8}
+    if len(got) != len(case['ops']):
+        return 'number of states'
+    for k, (opc, p, arg) in enumerate(case['ops']):
+        i = bask[p]
+        if opc == 4:
+            heap.append(heap[i])
+            bask[p] = len(heap) - 1
+        elif opc == 14:
+            bask.append(i)
+        elif opc == 16:
+            heap.append(spec_upper(arg))
+            bask.append(len(heap) - 1)
+        elif opc == 13:
+            heap[i] = arg
+        elif opc == 15:
+            heap[i] = heap[i] + arg
+        elif opc in bf:
+            for j in bask:                # the per-sequence operation for every listed object, in order
+                heap[j] = fs[bf[opc]](heap[j])
+        else:
+            heap[i] = fs[opc](heap[i])
+        if got[k] != [heap, bask]:
+            return 'after step %d (%s): expected %r got %r' % (k, OPNAMES[opc], [heap, bask], got[k])
+    return None
+
+
+def snippet_hist(case):
+    return ('import sys; sys.path.insert(0, "/verif/tools/props"); sys.path.insert(0, "/verif/tools"); import c05, json\n'
+            'case = json.loads(%r)\nprint(c05.impl_hist(case)); print(c05.spec_hist(case, c05.impl_hist(case)))' % __import__('json').dumps(case))
+
+
+def rand_str(rng, n, flavour):
+    if flavour == 'dna':
+        al = ALPHA
+    elif flavour == 'rna':
+        al = ALPHA.replace('T', 'U')
+    elif flavour == 'mixed':
+        al = ALPHA + 'U'
+    elif flavour == 'acgt':
+        al = 'ACGT'
+    elif flavour == 'acgu':
+        al = 'ACGU'
+    elif flavour == 'noA':
+        al = 'CGUUYSKB-'
+    elif flavour == 'lower':
+        al = (ALPHA + 'U').lower() + 'ACGTU'
+    elif flavour == 'aa':
+        al = 'ACDEFGHIKLMNPQRSTVWYX*'
+    else:
+        al = None
+    if al is None:
+        return ''.join(chr(rng.choice(BYTES_OK)) for _ in range(n))
+    return ''.join(rng.choice(al) for _ in range(n))
+
+
+BYTES_OK = [i for i in range(256) if i not in (0xb5, 0xff)]
+FLAVOURS = ['dna', 'dna', 'rna', 'rna', 'mixed', 'acgt', 'acgu', 'noA', 'lower', 'aa', 'bytes']
+
+
+def gen_hist(rng, tier):
+    cases = []
+    n = 6000 if tier == 'thorough' else 700
+    resid = [0, 1, 2, 3, 5, 6, 7, 17]
+    for _ in range(n):
+        k = rng.choice([1, 1, 1, 2, 2, 3, 4])
+        ini = []
+        for _ in range(k):
+            fl = rng.choice(FLAVOURS)
+            ln = rng.choice([0, 1, 1, 2, 2, 3, 4, 5, 8, 13, 30]) if rng.random() < 0.97 else rng.choice([300, 1500])
+            s = rand_str(rng, ln, fl)
+            if ini and rng.random() < 0.25:           # a sequence next to its own reverse complement / duplicate
+                s0 = ini[0][1]
+                s = spec_c_any(s0[::-1]) if rng.random() < 0.6 else s0
+            mode = rng.random() < 0.6
+            ini.append([mode, s, rng.choice([None, None, 'nt', 'aa'])])
+        ops = []
+        for _ in range(rng.choice([1, 2, 2, 3, 4, 6, 9])):
+            r = rng.random()
+            if r < 0.6:
+                opc = rng.choice(resid)
+            else:
+                opc = rng.choice(list(OPNAMES))
+            arg = ''
+            if opc == 4:
+                arg = rng.choice(['', 's', 'd'])
+            elif opc in (13, 15, 16):
+                arg = rand_str(rng, rng.choice([0, 1, 2, 5]), rng.choice(FLAVOURS))
+            ops.append([opc, rng.randrange(k), arg])
+        cases.append({'kind': 'hist', 'init': ini, 'ops': ops})
+    # every byte value 0..255: assigned as data (any byte) and through the constructor (all but the two whose upper case leaves Latin-1)
+    allb = [chr(i) for i in range(256)]
+    for rep in range(3 if tier == 'thorough' else 1):
+        rng.shuffle(allb)
+        for extra in ('', 'U'):
+            s = ''.join(allb) if extra else ''.join(c for c in allb if c != 'U')
+            for opc in (0, 2, 8):
+                cases.append({'kind': 'hist', 'init': [[False, s, None]], 'ops': [[opc, 0, ''], [opc, 0, '']]})
+            s2 = ''.join(c for c in s if ord(c) in BYTES_OK)
+            cases.append({'kind': 'hist', 'init': [[True, s2, None]], 'ops': [[0, 0, ''], [2, 0, ''], [12, 0, ''], [0, 0, '']]})
+    # every single byte alone and next to U, complemented twice (the exact region where the involution holds)
+    for i in (range(256) if tier == 'thorough' else rng.sample(range(256), 48)):
+        cases.append({'kind': 'hist', 'init': [[False, chr(i), None], [False, chr(i) + 'U', None], [False, 'A' + chr(i) + 'U', None]],
+                      'ops': [[5, 0, ''], [5, 0, ''], [7, 0, ''], [7, 0, '']]})
+    # exhaustive short strings over {A, T, U, G, R}: the T/U/A interplay of the U branch, twice applied
+    for nlen in (1, 2, 3):
+        for t in itertools.product('ATUGR', repeat=nlen):
+            if nlen == 3 and tier != 'thorough' and rng.random() > 0.4:
+                continue
+            cases.append({'kind': 'hist', 'init': [[rng.random() < 0.5, ''.join(t), None]], 'ops': [[rng.choice([0, 2, 3]), 0, ''], [rng.choice([0, 2, 5, 7]), 0, '']]})
+    # one object listed several times: the basket operation reaches it once per listing
+    for _ in range(60 if tier == 'thorough' else 15):
+        s = rand_str(rng, rng.choice([1, 3, 6]), rng.choice(['dna', 'rna', 'mixed']))
+        ops = [[14, 0, '']] * rng.choice([1, 2, 3]) + [[rng.choice([5, 6, 7, 11, 17]), 0, ''] for _ in range(rng.choice([1, 2]))]
+        cases.append({'kind': 'hist', 'init': [[True, s, None], [True, rand_str(rng, 3, 'dna'), None]], 'ops': ops})
+    return cases
+
+
+
 def model_term(case):
+    if case.get('kind') == 'hist':
+        return 'out (run_C05_hist %s %s)' % (
+            coq_list([coq_pair(coq_bool(bool(m[0])), coq_bs(m[1])) for m in case['init']]),
+            coq_list([coq_pair(coq_pair(coq_N(o[0]), coq_nat(o[1])), coq_bs(o[2])) for o in case['ops']]))
     fn = 'run_C05_lin' if len(cur(case)) > 20000 else 'run_C05'      # C05_lin_eval: the same function
     return 'out (%s %s %s)' % (fn, coq_N(OPS[case['op']]), coq_bs(cur(case)))
 
 
 def spec(case, got):
     """Property-level oracle, independent of the Coq model."""
+    if case.get('kind') == 'hist':
+        return spec_hist(case, got)
     s, op = cur(case), case['op']
     if isinstance(got, dict):
         return 'raised %s' % got['e']
@@ -216,6 +480,8 @@ def spec(case, got):
 
 
 def nontrivial(case, got):
+    if case.get('kind') == 'hist':
+        return 'hist:' + ','.join(str(o[0]) for o in case['ops']) + ':' + ''.join(sorted(set(''.join(m[1] for m in case['init']))))[:24]
     s = cur(case)
     if case.get('pre'):
         return 'history:' + case['op']
@@ -225,6 +491,8 @@ def nontrivial(case, got):
 
 
 def histkey(case, got):
+    if case.get('kind') == 'hist':
+        return ['hist', 'hist-seqs=%d' % len(case['init'])] + ['hop=' + OPNAMES[o[0]] for o in case['ops']] + sorted(set(classify(m[1]) for m in case['init']))
     n = len(case['s'])
     if case.get('pre'):
         return ['op=' + case['op'], 'history'] + ['pre=' + e for e in case['pre']] + (['basket%d' % len(case.get('others') or [])])
@@ -233,16 +501,26 @@ def histkey(case, got):
 
 
 def python_snippet(case):
+    if case.get('kind') == 'hist':
+        return snippet_hist(case)
     return "from sugar import BioSeq; s=BioSeq(%r); print(s.%s)" % (case['s'], {'complement': 'complement()', 'rc': 'rc()', 'rev_complement': 'complement().reverse()', 'rc_rc': 'rc().rc()', 'gc': 'gc', 'reverse': 'reverse()'}[case['op']])
 
-LEVEL_TEXT = ('Machine-checked Coq theorems for every string: complement is the per-symbol IUPAC/Watson-Crick map on the regenerated '
-              'COMPLEMENT tables (finite table theorem re-checked against /repo on every run), complement and rc are involutions on the '
-              '17-symbol alphabet, rc = reverse;complement = complement;reverse, length and GC counts preserved, RNA identical up to U/T; '
-              'the hand-written control flow (U branch, reverse, basket map) is tied to sugar by differential testing on every run.')
-LEVEL_NOTE = ('Trusted: Coq kernel/vm_compute, tools/gen_data.py (tables), the correspondence harness, CPython str.translate/replace. '
-              'Modelled rather than verified: BioSeq.complement/reverse/rc/gc and the basket maps; Python str limited to Latin-1. '
+LEVEL_TEXT = ('Machine-checked Coq theorems for EVERY byte string (not only the alphabet): complement is position-wise with one symbol map '
+              'chosen by the single flag "U in data" (C05_complement_every_string, C05_rna_symbol_map), the table is the identity outside the 17 '
+              'symbols and an involution on all 256 code points (C05_table_every_byte), set-level IUPAC/Watson-Crick semantics for the DNA and '
+              'the RNA alphabet (C05_complement_table_sound, _rna), rc = reverse;complement = complement;reverse, length and GC counts preserved, '
+              'complement/rc applied twice: exact result and exact region of the involution (C05_twice, C05_involution_iff: iff no U, or U with an A '
+              'and no T), RNA = DNA conjugated by T<->U (C05_rna_up_to_U, C05_rna_square, C05_tu_bijection, C05_t2u_square_iff), mixed T/U strings '
+              '(C05_mixed_TU), constructor upper-casing (C05_constructor); the derivation of COMPLEMENT_ALL/COMPLEMENT_TRANS from CODES is a Gallina '
+              'function proved to yield the regenerated tables (C05_derived_tables, C05_codes_are_iupac; re-checked against /repo on every run). '
+              'The hand-written control flow (U branch, reverse, constructor, in-place object histories with copies and aliases, basket loops, the '
+              '.str route) is tied to sugar by differential testing on every run.')
+LEVEL_NOTE = ('Trusted: Coq kernel/vm_compute, tools/gen_data.py (tables), the correspondence harness, CPython str.translate/replace/upper/lower. '
+              'Modelled rather than verified: BioSeq.__init__ (upper-casing), complement/reverse/rc/gc, .str.translate/.replace/.lower, copy, '
+              'BioBasket.complement/reverse/rc/.str.translate over a heap of objects with handles (run_C05_hist); Python str limited to Latin-1, '
+              'constructor input without 0xB5/0xFF (upper case leaves Latin-1). Object identity (the receiver is returned) is tested only. Line 227 of BioSeq.__init__ (metadata from a mapping) is not reached: it does not touch residues. '
               'All theorems closed under the global context (no axioms).')
 
-MODELLED_FUNCS = {'sugar/core/seq.py': ['BioSeq.complement', 'BioSeq.reverse', 'BioSeq.rc', 'BioSeq.gc', 'BioBasket.rc', 'BioBasket.complement', 'BioBasket.reverse']}
+MODELLED_FUNCS = {'sugar/core/seq.py': ['BioSeq.__init__', '_BioSeqStr.translate', '_BioSeqStr.replace', '_BioSeqStr.lower', 'BioSeq.__iadd__', 'BioSeq.copy', 'BioSeq.complement', 'BioSeq.reverse', 'BioSeq.rc', 'BioSeq.gc', 'BioBasket.rc', 'BioBasket.complement', 'BioBasket.reverse']}
 
 NO_SHRINK_KEYS = {'pre'}
